@@ -5,7 +5,7 @@ from __future__ import annotations
 
 import ast
 
-from tiv.astutil import body_walk, call_name, dotted, enclosing_stmt, guards, norm, short, stores_in, walk_local
+from tiv.astutil import body_walk, call_name, conds, dotted, enclosing_stmt, guards, norm, short, stores_in, walk_local
 from tiv.mutate import M
 
 RULES = {
@@ -21,6 +21,9 @@ RULES = {
     "R4": "precedence is the order of three writes in __init__: class defaults (canonical order) first, then a non-default initial set, then "
           "each namespace in argument order (last wins) after its compatibility test; __new__ rejects an incompatible initial set before any return",
     "R5": "eq/hash agree: every cell read by __hash__ is compared by __eq__ (ArgsNamespace and RenderArgs)",
+    "R7": "derived sets carry what they were derived from: RenderArgs.update returns RenderArgs(self.render_cls, self, <all given namespaces, unfiltered>), "
+          "RenderArgs.convert returns self only for the same class and otherwise a RenderArgs built from self's namespaces, ArgsNamespace.to_render_args returns "
+          "RenderArgs(<class>, self) - no shortcut bypasses the constructor's precedence and compatibility rules",
     "R6": "namespace-class rules are enforced before the class exists: the metaclass raises precede super().__new__; association writes are "
           "preceded by the already-associated test; unknown fields are rejected before any store",
 }
@@ -238,6 +241,40 @@ def run(ck, m):
     for cname in ("ArgsNamespace", "RenderArgs"):
         h, e = cells(m.get(TY, f"{cname}.__hash__")), cells(m.get(TY, f"{cname}.__eq__"))
         ck.ob("R5", m.get(TY, f"{cname}.__hash__"), bool(h) and h <= e, f"{cname}.__hash__ reads {sorted(h - e)} which __eq__ does not compare: equal objects can hash differently", stmt=f"{cname}: hash cells subset of eq cells")
+
+    # ---- R7: derived sets carry everything they were derived from ---------------------------------
+    # update(), convert() and to_render_args() build their result with the RenderArgs constructor (whose precedence rules R4 checks) from
+    # *all* their inputs: `self` (or the namespaces selected from it) is always among the constructor's arguments, the given
+    # namespaces are passed on unfiltered, and there is no shortcut that returns something else.
+    def ctor_returns(fn):
+        out = []
+        for r in body_walk(fn):
+            if isinstance(r, ast.Return) and r.value is not None:
+                out.append((r, _trace(fn, r.value, keep=("namespaces", "render_cls", "fields", "render_cls_or_namespace"))))
+        return out
+    upd_fn = m.variants(TY, "RenderArgs.update")[-1]
+    n7 = 0
+    for r, v in ctor_returns(upd_fn):
+        n7 += 1
+        ok7 = isinstance(v, ast.Call) and norm(v.func) == "RenderArgs" and len(v.args) >= 2 and norm(v.args[0]) == "self.render_cls" and norm(v.args[1]) == "self" \
+            and not any(isinstance(x, (ast.ListComp, ast.GeneratorExp, ast.SetComp)) or (isinstance(x, ast.Call) and norm(x.func) == "filter") for a_ in v.args[2:] for x in ast.walk(a_))
+        ck.ob("R7", r, ok7, f"RenderArgs.update must return RenderArgs(self.render_cls, self, <every given namespace, in order>); found `{short(v, 80)}` - a filtered or short-cut result loses "
+              "last-given precedence (an earlier duplicate wins once the later, 'unchanged' one is dropped)", stmt="RenderArgs.update: constructor with self and all namespaces")
+    conv = m.get(TY, "RenderArgs.convert")
+    for r, v in ctor_returns(conv):
+        if norm(v) == "self":
+            ck.ob("R7", r, "render_cls is self.render_cls" in conds(r), "RenderArgs.convert may return `self` only for its own render class", stmt="RenderArgs.convert: self only for the same class")
+            continue
+        n7 += 1
+        carries = isinstance(v, ast.Call) and norm(v.func) == "RenderArgs" and len(v.args) >= 2 and any("self" in {n_.id for n_ in ast.walk(a_) if isinstance(n_, ast.Name)} for a_ in v.args[1:])
+        ck.ob("R7", r, carries, f"RenderArgs.convert must build its result from this set's namespaces (`RenderArgs(render_cls, self)` / the namespaces of the common classes); found `{short(v, 70)}` - "
+              "the values held for ancestor classes are lost", stmt="RenderArgs.convert: result carries self's namespaces")
+    tra = m.get(TY, "ArgsNamespace.to_render_args")
+    for r, v in ctor_returns(tra):
+        n7 += 1
+        ck.ob("R7", r, isinstance(v, ast.Call) and norm(v.func) == "RenderArgs" and len(v.args) == 2 and norm(v.args[1]) == "self",
+              f"ArgsNamespace.to_render_args must return RenderArgs(<class>, self) (the constructor validates compatibility); found `{short(v, 70)}`", stmt="ArgsNamespace.to_render_args: RenderArgs(cls, self)")
+    ck.expect(n7 >= 4, f"derived-set constructors found: {n7}")
 
     # ---- R6 ----------------------------------------------------------------------------
     for q, exc in (("ArgsDataNamespaceMeta.__new__", "RenderArgsDataError"), ("ArgsNamespaceMeta.__new__", "RenderArgsError")):
